@@ -33,6 +33,11 @@ pub fn run_c04(cx: &Ctx) -> i32 {
         g.atoms.push(Node::Flag(f.to_string()));
     }
     g.atoms.push(ast::lit("A"));
+    // character classes in their various spellings (copied verbatim into delegated regexes)
+    let class_atoms: &[&str] = if cx.quick() { &["[a-b]", "\\s", "[^\\n]"] } else { &["[a-b]", "\\s", "[^\\n]", "\\d", "[\\w&&[^a]]", "[[:alpha:]]", "[a[^b]]", "\\pL", "\\p{Lu}", "[\\]a]", "[]a]", "\\S", "\\W", "[\\x61-\\x62]"] };
+    for c in class_atoms {
+        g.atoms.push(Node::Raw(c.to_string(), 1));
+    }
     // inline flags inside a capture group followed by something outside it need 6 nodes: listed
     let mut scoped = Vec::new();
     for f in ["(?i)", "(?s)", "(?m)", "(?x)", "(?U)", "(?-i)"] {
